@@ -51,8 +51,8 @@ func c01Frames() map[string][]byte {
 		"helloPend":  shipx.Hello("pending", 60000, 0),
 		"helloProl":  shipx.Hello("pending", -1, 1),
 		"helloAbort": shipx.Hello("aborted", -1, 0),
-		"protAnn":    shipx.Prot("announceMax", 1, 0, `"JSON-UTF8"`),
-		"protSel":    shipx.Prot("select", 1, 0, `"JSON-UTF8"`),
+		"protAnn":    shipx.Prot("announceMax", 1, 0, `["JSON-UTF8"]`),
+		"protSel":    shipx.Prot("select", 1, 0, `["JSON-UTF8"]`),
 		"pinNone":    shipx.Pin("none"),
 		"accReq":     shipx.AccessRequest(),
 		"accMeth":    shipx.AccessMethods("adversary"),
@@ -277,6 +277,7 @@ func c01Scenarios(r *hx.Run) []hx.Scenario {
 		out = append(out, hx.Scenario{Name: "c01:race:unregister-during-" + when, Body: raceBody("unregister", when, true, true), Bounds: simrt.B(pb, 0, 0),
 			Cfg: simrt.Config{MaxSteps: 400000, BranchAfterMark: true, BranchOnly: []string{"user", "prepareConnectionInitation", "http.serve"}}})
 	}
+	out = append(out, c01PowerCycleScenarios(r)...)
 	return out
 }
 
